@@ -26,7 +26,7 @@ func init() {
 	mc.Register(&mc.Property{
 		ID:    "C20",
 		Title: "The CLI reports what the library computes",
-		Rule: "`numscript check FILE` on generator scripts (clean, warning-only, with name / type errors from <= 1 edit, syntactically broken) and `numscript run --output-format json` on statement sequences and variable-carrying base scripts (succeeding and failing at run time, amounts and balances beyond 2^64, metadata, overdraft flag) through EACH input channel {--raw, --stdin, file flags}; " +
+		Rule: "`numscript check FILE` on generator scripts (clean, warning-only, with name / type errors from <= 1 edit, syntactically broken) and `numscript run --output-format json` on statement sequences and variable-carrying base scripts (succeeding and failing at run time, amounts and balances beyond 2^64, metadata, overdraft flag) through EACH input channel {--raw, --stdin, file flags} and three mixed ones (the script through --raw or --stdin with the inputs through the file flags; the script from a file with the inputs through --raw); " +
 			"oracle: check exits non-zero iff the library counts >= 1 error and prints every library diagnostic as path:line:char - severity / message; run prints JSON whose postings, txMeta and accountsMeta equal what the library returns for the same inputs (numbers decoded with arbitrary precision), exits non-zero with the library's error message on stderr when the library fails, and the three channels agree; " +
 			"non-trivial = check with >= 1 diagnostic, or run with >= 1 posting / metadata entry / an error; distinct = script text + inputs + channel",
 		Assumptions: []string{"the JSON field names postings/txMeta/accountsMeta/source/destination/amount/asset of the pinned tree are the interface", "each case is one process of the binary built from the current tree (bin/prebuild-C20)"},
@@ -247,6 +247,18 @@ func runC20(w *mc.Worker) {
 			{"--stdin", runProc(bin, string(raw), append(append([]string{}, common...), "--stdin")...)},
 			{"files", runProc(bin, "", append(append([]string{}, common...), write("r.num", text), "-v", write("v.json", string(vj)), "-b", write("b.json", string(bj)), "-m", write("m.json", string(mj)))...)},
 		}...)
+		// mixed channels: the script through one channel, variables / balances / metadata through another
+		scriptOnly, _ := json.Marshal(map[string]any{"script": text})
+		inputsOnly, _ := json.Marshal(map[string]any{"variables": in["variables"], "metadata": in["metadata"], "balances": in["balances"]})
+		fileFlags := func() []string {
+			return []string{"-v", write("v.json", string(vj)), "-b", write("b.json", string(bj)), "-m", write("m.json", string(mj))}
+		}
+		if len(raw) < 100000 {
+			chans = append(chans,
+				chanOut{"raw-script+files", runProc(bin, "", append(append(append([]string{}, common...), "--raw", string(scriptOnly)), fileFlags()...)...)},
+				chanOut{"file-script+raw-inputs", runProc(bin, "", append(append([]string{}, common...), write("r.num", text), "--raw", string(inputsOnly))...)})
+		}
+		chans = append(chans, chanOut{"stdin-script+files", runProc(bin, string(scriptOnly), append(append(append([]string{}, common...), "--stdin"), fileFlags()...)...)})
 		expect := "parse-error"
 		if parsedOK {
 			expect = outSig(lib)
